@@ -47,6 +47,7 @@ type Profile struct {
 	VotePeriods []uint64
 	Probono     bool
 	OracleFee   string
+	Imported    bool // tenants and records (multi-recipient, weighted) imported through genesis
 }
 
 type pendRec struct {
@@ -136,6 +137,9 @@ func GenHistory(seed uint64, idx int, p Profile) History {
 		owner := MakeAcct(gen.NAccts - 1)
 		g.nftAddr = ethcrypto.CreateAddress(owner.Hex(), 0).Hex()
 	}
+	if p.Imported {
+		g.importedGenesis()
+	}
 	blocks := p.Blocks
 	if blocks == 0 {
 		blocks = 16
@@ -145,6 +149,49 @@ func GenHistory(seed uint64, idx int, p Profile) History {
 		g.block()
 	}
 	return g.h
+}
+
+// tenants and records that only a genesis import can create: several recipients, explicit
+// weights (zero, huge, summing beyond 2^32), null addresses, unknown payout methods
+func (g *genState) importedGenesis() {
+	r := g.r
+	nt := 1 + r.Intn(2)
+	weights := []uint32{0, 1, 1, 2, 3, 7, 1 << 31, 1<<32 - 1, 1 << 30}
+	for t := 1; t <= nt; t++ {
+		adm := g.user()
+		method := "native"
+		if r.Chance(8) {
+			method = "weird"
+		}
+		denom := tenantDenoms[r.Intn(2)]
+		period := uint64(1 + r.Intn(6))
+		g.h.Genesis.Tenants = append(g.h.Genesis.Tenants, GenTenant{Id: uint64(t), Admins: []int{adm}, Denom: denom, Period: period, Method: method})
+		g.tenants = append(g.tenants, genTenant{id: uint64(t), admins: []int{adm}, denom: denom, period: period})
+		nrec := 1 + r.Intn(4)
+		id := uint64(r.Intn(3))
+		for k := 0; k < nrec; k++ {
+			nr := r.Intn(5)
+			var recips []GenRecip
+			for j := 0; j < nr; j++ {
+				addr := ownerPool[r.Intn(len(ownerPool))]
+				if r.Chance(30) {
+					addr = MakeAcct(g.user()).Hex().Hex()
+				}
+				recips = append(recips, GenRecip{Addr: addr, Weight: weights[r.Intn(len(weights))]})
+			}
+			g.reqCtr++
+			req := fmt.Sprintf("g%d", g.reqCtr)
+			amt := fmt.Sprint(1 + r.Intn(100000))
+			if r.Chance(10) {
+				amt = "340282366920938463463374607431768211455" // 2^128-1: amount * weight still fits 256 bits
+			}
+			u := GenUtxr{Tid: uint64(t), Id: id, Req: req, Recips: recips, Denom: denom, Amount: amt,
+				Chain: g.h.Genesis.Chains[0], Contract: extContracts[r.Intn(len(extContracts))], Tok: []string{"0x1", "0x2", "0x3"}[r.Intn(3)], Created: uint64(r.Intn(3))}
+			g.h.Genesis.Utxrs = append(g.h.Genesis.Utxrs, u)
+			g.recs = append(g.recs, &pendRec{tid: uint64(t), req: req, chain: u.Chain, contract: u.Contract, tok: u.Tok, created: int64(u.Created), external: true})
+			id += uint64(1 + r.Intn(3))
+		}
+	}
 }
 
 func (g *genState) user() int { return g.users[g.r.Intn(len(g.users))] }
@@ -431,6 +478,13 @@ func (g *genState) block() {
 	g.height++
 	_, _, ve := g.roundOf(g.height)
 	var envs []Env
+	if g.p.Imported && g.height == 1 {
+		for _, t := range g.tenants {
+			if r.Chance(80) {
+				envs = append(envs, Env{Kind: "bank_send", From: g.user(), To: -1 - int(t.id), Denom: t.denom, Amount: fmt.Sprint(1 + r.Intn(300000))})
+			}
+		}
+	}
 	if r.Chance(15) && len(g.tenants) > 0 {
 		t := g.pickTenant()
 		envs = append(envs, Env{Kind: "bank_send", From: g.user(), To: -1 - int(t.id), Denom: t.denom, Amount: fmt.Sprint(1 + r.Intn(300))})
